@@ -129,51 +129,58 @@ theorem coinbase_accounting_real (law : QueueLaw ops) (e : Env) (pool : List Tx)
 /-- The candidate template satisfies the block-level consensus rules of `Spec.blockValid`: no second
 coinbase, no duplicates, every transaction final on the clock CONSENSUS uses, inputs connect in
 order without double spends, coinbase value within subsidy + fees, scripts hold (oracle bit),
-sigop-cost and weight limits, witness data only with segwit and then with a commitment. -/
+sigop-cost and weight limits, witness data only with segwit and then with a commitment, BIP68
+sequence locks (which the generator does not look at: the hypothesis `hseq` is the pool's admission
+check), amounts within range, header time after the median time and within two hours of the clock. -/
 theorem template_valid (law : QueueLaw ops) (e : Env) (pool : List Tx) (fuel : Nat)
     (hp : PoolOk pool) (he : EnvOk e) (hno : feesNotOverstatedB e pool = true)
-    (hmax : e.maxWeight ≤ MAX_BLOCK_WEIGHT) :
+    (hseq : pool.all (seqLocksOk e) = true) (hmax : e.maxWeight ≤ MAX_BLOCK_WEIGHT) :
     blockValid e pool (candidate ops e pool fuel) = true :=
-  blockValid_of_inv (runSelect_inv hp he law fuel) (notOverstated_of_check hno) hmax
+  blockValid_of_inv (runSelect_inv hp he law fuel) he (notOverstated_of_check hno)
+    (List.all_eq_true.1 hseq) hmax
 
-/-- Generation succeeds: the generator's final self-check never refuses its own selection.
-`_partial`: success is relative to `Spec.blockValid`, which does not contain BIP68 sequence locks
-(not consulted by the generator; the pool enforces them at admission and they stay satisfied while the
-tip does not move backwards), amount-range checks, nor the header checks that depend on the node's
-clock being within two hours of the median time.  Lock-time finality, the clause F-C12-a violated, is
-covered in full: no hypothesis about the clocks is needed. -/
-theorem generation_succeeds_partial (law : QueueLaw ops) (e : Env) (pool : List Tx) (fuel : Nat)
+/-- Generation succeeds whenever every pooled transaction was admitted on the current chain (its
+sequence locks hold for the next block, its fee is not overstated) and the policy is within
+consensus: the generator's final self-check never refuses its own selection.  No hypothesis about
+lock-time finality is needed (the clause F-C12-a violated): the generator selects on the clock
+consensus uses.  `Spec.blockValid` covers every block-level rule that depends on the choice of
+transactions, the header time and the coinbase value; what remains outside is script execution (an
+oracle bit per transaction) and the fixed shape of the coinbase (BIP34 height, version bits), which
+the correspondence run checks through `CheckConnectBlockTemplate` / `ProcessBlock`. -/
+theorem generation_succeeds (law : QueueLaw ops) (e : Env) (pool : List Tx) (fuel : Nat)
     (hp : PoolOk pool) (he : EnvOk e) (hno : feesNotOverstatedB e pool = true)
-    (hmax : e.maxWeight ≤ MAX_BLOCK_WEIGHT) :
+    (hseq : pool.all (seqLocksOk e) = true) (hmax : e.maxWeight ≤ MAX_BLOCK_WEIGHT) :
     newBlockTemplate ops e pool fuel = Result.ok (candidate ops e pool fuel) := by
   unfold newBlockTemplate
-  simp [template_valid law e pool fuel hp he hno hmax]
+  simp [template_valid law e pool fuel hp he hno hseq hmax]
 
 /-- `UpdateBlockTime` / `UpdateExtraNonce`: a generated template stays valid when the clock has moved
 forward (the header takes max(now', MTP+1)) and the coinbase script is replaced (coinbase weight
 `cbw'`), as long as the block with the new coinbase is within the consensus weight. -/
 theorem update_keeps_valid (law : QueueLaw ops) (e : Env) (pool : List Tx) (fuel : Nat)
     (hp : PoolOk pool) (he : EnvOk e) (hno : feesNotOverstatedB e pool = true)
+    (hseq : pool.all (seqLocksOk e) = true)
     (hmax : e.maxWeight ≤ MAX_BLOCK_WEIGHT) (now' : Int) (cbw' : Nat) (hn : e.now ≤ now')
     (hw : Spec.blockWeight (e.updated now' cbw') pool (candidate ops e pool fuel) ≤ MAX_BLOCK_WEIGHT) :
     blockValid (e.updated now' cbw') pool (candidate ops e pool fuel) = true :=
-  blockValid_updated e pool _ now' cbw' hn (template_valid law e pool fuel hp he hno hmax) hw
+  blockValid_updated e pool _ now' cbw' hn (template_valid law e pool fuel hp he hno hseq hmax) hw
 
 /-- … in particular updating only the time never invalidates it. -/
 theorem update_time_keeps_valid (law : QueueLaw ops) (e : Env) (pool : List Tx) (fuel : Nat)
     (hp : PoolOk pool) (he : EnvOk e) (hno : feesNotOverstatedB e pool = true)
+    (hseq : pool.all (seqLocksOk e) = true)
     (hmax : e.maxWeight ≤ MAX_BLOCK_WEIGHT) (now' : Int) (hn : e.now ≤ now') :
     blockValid (e.updated now' e.cbWeight) pool (candidate ops e pool fuel) = true := by
-  apply update_keeps_valid law e pool fuel hp he hno hmax now' e.cbWeight hn
+  apply update_keeps_valid law e pool fuel hp he hno hseq hmax now' e.cbWeight hn
   have := (limits_respected law e pool fuel hp he).2.1 hmax
   exact this
 
 /-- container/heap is a lawful queue, so all of the above holds for the algorithm the driver runs. -/
 theorem template_valid_heap (e : Env) (pool : List Tx) (fuel : Nat)
     (hp : PoolOk pool) (he : EnvOk e) (hno : feesNotOverstatedB e pool = true)
-    (hmax : e.maxWeight ≤ MAX_BLOCK_WEIGHT) :
+    (hseq : pool.all (seqLocksOk e) = true) (hmax : e.maxWeight ≤ MAX_BLOCK_WEIGHT) :
     blockValid e pool (candidate heapOps e pool fuel) = true :=
-  template_valid heapLaw e pool fuel hp he hno hmax
+  template_valid heapLaw e pool fuel hp he hno hseq hmax
 
 /-- The fuel the driver uses is enough: the model's loop ends because the queue is empty, exactly like
 Go's `for priorityQueue.Len() > 0` (each iteration retires an item for good, except the single re-push
@@ -195,10 +202,10 @@ theorem templates_are_values (e : Env) (poolA poolB : List Tx) (fuelA fuelB : Na
 /-- … so the earlier template of two is valid after the later one exists. -/
 theorem earlier_template_stays_valid (law : QueueLaw ops) (e : Env) (poolA poolB : List Tx) (fuelA fuelB : Nat)
     (hp : PoolOk poolA) (he : EnvOk e) (hno : feesNotOverstatedB e poolA = true)
-    (hmax : e.maxWeight ≤ MAX_BLOCK_WEIGHT) :
+    (hseq : poolA.all (seqLocksOk e) = true) (hmax : e.maxWeight ≤ MAX_BLOCK_WEIGHT) :
     (generateTwice ops e poolA poolB fuelA fuelB).1 = Result.ok (candidate ops e poolA fuelA)
     ∧ blockValid e poolA (candidate ops e poolA fuelA) = true :=
-  ⟨generation_succeeds_partial law e poolA fuelA hp he hno hmax, template_valid law e poolA fuelA hp he hno hmax⟩
+  ⟨generation_succeeds law e poolA fuelA hp he hno hseq hmax, template_valid law e poolA fuelA hp he hno hseq hmax⟩
 
 /-! ## F-C12-a: why the clock matters -/
 
@@ -219,7 +226,7 @@ def f12aEnv : Env :=
     minFreeFee := 1000 }
 
 def f12aPool : List Tx :=
-  [{ ins := [⟨OutPoint.u 34, some ⟨65000000, 6, false⟩⟩], outs := [⟨64984666, true⟩], lockTime := 1600015598,
+  [{ ins := [{ op := OutPoint.u 34, chain := some { value := 65000000, height := 6, coinbase := false } }], outs := [⟨64984666, true⟩], lockTime := 1600015598,
      allSeqMax := false, fee := 15334, feePerKB := 251377, prio := 4723556754560909312, weight := 244,
      sigCost := 0, hasWitness := false, scriptsOk := true }]
 
@@ -235,19 +242,27 @@ theorem mediantime_selection_accepted :
 /-! ## The hypotheses are satisfiable -/
 
 def examplePool : List Tx :=
-  [{ ins := [⟨OutPoint.u 1, some ⟨100000, 5, false⟩⟩], outs := [⟨60000, true⟩, ⟨30000, true⟩], lockTime := 0,
+  [{ ins := [{ op := OutPoint.u 1, chain := some { value := 100000, height := 5, coinbase := false } }], outs := [⟨60000, true⟩, ⟨30000, true⟩], lockTime := 0,
      allSeqMax := true, fee := 10000, feePerKB := 40000, prio := 5, weight := 400, sigCost := 4,
      hasWitness := false, scriptsOk := true },
-   { ins := [⟨OutPoint.p 0 1, none⟩], outs := [⟨29000, true⟩], lockTime := 0, allSeqMax := true, fee := 1000,
+   { ins := [{ op := OutPoint.p 0 1, chain := none }], outs := [⟨29000, true⟩], lockTime := 0, allSeqMax := true, fee := 1000,
      feePerKB := 5000, prio := 0, weight := 300, sigCost := 1, hasWitness := true, scriptsOk := true }]
 
 example : PoolOk examplePool :=
   ⟨by decide, by decide, by decide, by decide, by decide⟩
 
-example : EnvOk f12aEnv := ⟨by decide, by decide, by decide⟩
+example : EnvOk f12aEnv := ⟨by decide, by decide, by decide, by decide⟩
 
 example : honestFeesB f12aEnv examplePool = true ∧ feesNotOverstatedB f12aEnv examplePool = true
-    ∧ f12aEnv.maxWeight ≤ MAX_BLOCK_WEIGHT := by decide
+    ∧ examplePool.all (seqLocksOk f12aEnv) = true ∧ f12aEnv.maxWeight ≤ MAX_BLOCK_WEIGHT := by decide
+
+/-- a version-2 transaction whose relative lock of 3 blocks on an output confirmed 2 blocks ago is not
+yet met: the generator would select it, consensus refuses the block -/
+example :
+    seqLocksOk f12aEnv
+      { ins := [{ op := OutPoint.u 7, chain := some { value := 5000, height := 23, coinbase := false }, sequence := 3 }],
+        outs := [⟨4000, true⟩], lockTime := 0, allSeqMax := false, fee := 1000, feePerKB := 9000, prio := 1,
+        weight := 244, sigCost := 0, hasWitness := false, scriptsOk := true, version := 2 } = false := by decide
 
 example : (candidate heapOps f12aEnv examplePool 8).sel = [0, 1] := by decide
 
@@ -265,6 +280,13 @@ theorem pin_witnessReserve :
     Generated.C12.coinbaseWitnessDataLen = COINBASE_WITNESS_DATA_LEN
     ∧ Generated.C12.coinbaseWitnessPkScriptLength = COINBASE_WITNESS_PKSCRIPT_LEN
     ∧ WITNESS_RESERVE = 224 := by decide
+theorem pin_maxSatoshi : Generated.C12.maxSatoshi = MAX_SATOSHI := by decide
+theorem pin_maxTimeOffset : Generated.C12.maxTimeOffsetSeconds = MAX_TIME_OFFSET := by decide
+theorem pin_sequenceLock :
+    Generated.C12.sequenceLockTimeDisabled = SEQ_DISABLED ∧ Generated.C12.sequenceLockTimeIsSeconds = SEQ_IS_SECONDS
+    ∧ Generated.C12.sequenceLockTimeMask + 1 = SEQ_MASK
+    ∧ (2 : Int) ^ Generated.C12.sequenceLockTimeGranularity.toNat = SEQ_GRANULARITY
+    ∧ Generated.C12.maxTxInSequenceNum = MAX_SEQUENCE := by decide
 theorem pin_lockTimeThreshold : Generated.C12.lockTimeThreshold = LOCKTIME_THRESHOLD := by decide
 theorem pin_baseSubsidy : Generated.C12.baseSubsidy = BASE_SUBSIDY := by decide
 theorem pin_unminedHeight : Generated.C12.unminedHeight = 2147483647 := by decide
